@@ -43,7 +43,7 @@ class HelpersMachine(Machine):
     NAME = "helpers"
 
     @classmethod
-    def gen_config(cls, rng, prop, tier):
+    def gen_config(cls, rng, prop, tier, _twin=False):
         target = rng.choice(["table_keyed", "table_keyed", "table_list", "rows_list",
                              "rows_list", "rows_array"])
         nf = rng.randint(1, 5)
@@ -78,6 +78,17 @@ class HelpersMachine(Machine):
             cfg["types"] = ["default"] * nc
             cfg["mixed_numeric"] = True
         cfg["ties"] = rng.random() < 0.6
+        # a second session: another table / collector, of a configuration of its own, is alive in
+        # the same run and the two are used in turn (the merge order of the two sessions' operations
+        # is the schedule); after every operation on either, both must be what their models say
+        if not _twin and rng.random() < 0.35:
+            cfg["twin"] = cls.gen_config(rng, prop, tier, _twin=True)
+            if rng.random() < 0.5:
+                # same kind and same column / field names: what a registry keyed by name would mix up
+                t = {k: v for k, v in cfg.items() if k != "twin"}
+                t.update(ties=cfg["twin"]["ties"], p_fail=cfg["twin"]["p_fail"], initial=False,
+                         init_rows=[], init_data=[])
+                cfg["twin"] = t
         return cfg
 
     # ------------------------------------------------------------------ lifecycle
@@ -130,6 +141,11 @@ class HelpersMachine(Machine):
                     self.rc = RowCollector(list(self.cols), [list(r) for r in init])
                 self.rows = [[self._cast(v, t) for v, t in zip(r, self.types)] for r in init]
         self.abstract = "n0"
+        self.twin = None
+        if c.get("twin"):
+            self.twin = HelpersMachine(dict(c["twin"], twin=None))
+            self.twin.stats = self.stats
+            self.twin.start()
 
     # ------------------------------------------------------------------ generation
     def _cell(self, rng, t):
@@ -173,6 +189,11 @@ class HelpersMachine(Machine):
         return out
 
     def gen_op(self, rng):
+        if self.twin is not None and rng.random() < 0.4:
+            return {"op": "twin", "inner": self.twin.gen_op(rng)}
+        return self._gen_op(rng)
+
+    def _gen_op(self, rng):
         c = self.cfg
         if self.kind.startswith("table"):
             n = len(self.model)
@@ -287,6 +308,24 @@ class HelpersMachine(Machine):
                             signature=f"C20/accessor_failed/{self.kind}")
 
     def apply(self, op):
+        if op["op"] == "twin":
+            if self.twin is None:
+                return "noop", None
+            self.stats.fault("operation_on_a_second_live_object", True)
+            out = self.twin._apply_own(op["inner"])
+            # ... and the first object is what it was
+            self._guard(self._check_table if self.kind.startswith("table") else self._check_rows,
+                        "twin:" + op["inner"]["op"])
+            self.nontrivial = True
+            return out
+        out = self._apply_own(op)
+        if self.twin is not None:
+            t = self.twin
+            t._guard(t._check_table if t.kind.startswith("table") else t._check_rows,
+                     "other:" + op["op"])
+        return out
+
+    def _apply_own(self, op):
         if self.kind.startswith("table"):
             out = self._apply_table(op)
             self._guard(self._check_table, op["op"])
